@@ -1,7 +1,21 @@
-"""A small abstract interpreter over exported MIR, used to *tabulate* total functions of an enum kind
-(precedence, arity, predicates, Display symbols, ...) for every variant, following the code's own
-control flow instead of matching its text.  Domain: known constant / known aggregate / unknown.
-Unknown branch conditions explore both successors and join (equal -> value, else unknown)."""
+"""A small path-sensitive abstract interpreter over exported MIR.
+
+Domain: known constant / known aggregate (enum variant, tuple) / symbolic token / application term / unknown.
+It is used (a) to *tabulate* total functions of an enum kind (precedence, arity, predicates, Display symbols)
+for every variant, and (b) to compute the abstract result of small wrapper functions for each case of a
+case-split on their callee's result (wrapper matrix, context methods).  It follows the code's own control
+flow (switchInt on known discriminants/constants; unknown conditions fork) and never executes anything.
+
+Values:
+  ('c', v)                      constant (int/bool/str/char or ('float', bits))
+  ('adt', path, idx, name, fs)  enum/struct value with abstract fields
+  ('tuple', fs)
+  ('sym', name)                 opaque token (a parameter, a payload)
+  ('app', callee, args)         result of an uninterpreted call
+  ('proj', base, projs)         projection out of an opaque value
+  ('fn', def) / ('assoc', def)  function item / associated constant
+  ('unk',)
+"""
 from mirlib import op_place, op_const, path_endswith, callee_resolved
 
 UNK = ('unk',)
@@ -9,6 +23,10 @@ UNK = ('unk',)
 
 def C(v):
     return ('c', v)
+
+
+def SYM(n):
+    return ('sym', n)
 
 
 def ADT(adt, idx, vname, fields):
@@ -19,40 +37,118 @@ def is_const(v):
     return v[0] == 'c'
 
 
-def variant_of(v):
-    return v[2] if v[0] == 'adt' else None
+def is_adt(v, suffix=None, vname=None):
+    return v[0] == 'adt' and (suffix is None or path_endswith(v[1], suffix)) and (vname is None or v[3] == vname)
 
 
 def join(a, b):
     return a if a == b else UNK
 
 
+def OK(x):
+    return ADT('std::result::Result', 0, 'Ok', [x])
+
+
+def ERR(x):
+    return ADT('std::result::Result', 1, 'Err', [x])
+
+
+def SOME(x):
+    return ADT('std::option::Option', 1, 'Some', [x])
+
+
+NONE = ADT('std::option::Option', 0, 'None', [])
+
+
 class Budget(Exception):
     pass
 
 
+class Fork:
+    def __init__(self, values):
+        self.values = list(values)
+
+
+def fully_known(v):
+    if v[0] == 'c':
+        return True
+    if v[0] == 'adt':
+        return all(fully_known(x) for x in v[4])
+    if v[0] == 'tuple':
+        return all(fully_known(x) for x in v[1])
+    return False
+
+
+def fmt(v, depth=0):
+    k = v[0]
+    if k == 'c':
+        return repr(v[1])
+    if k == 'adt':
+        short = v[1].split('::')[-1]
+        if not v[4]:
+            return '%s::%s' % (short, v[3])
+        return '%s::%s(%s)' % (short, v[3], ', '.join(fmt(x, depth + 1) for x in v[4]))
+    if k == 'tuple':
+        return '(%s)' % ', '.join(fmt(x, depth + 1) for x in v[1])
+    if k == 'sym':
+        return '$' + v[1]
+    if k == 'app':
+        return '%s(%s)' % (v[1].split('::<')[0].split('::')[-1] if depth > 2 else v[1], ', '.join(fmt(x, depth + 1) for x in v[2]))
+    if k == 'proj':
+        return '%s.%s' % (fmt(v[1], depth + 1), '.'.join(str(p) for p in v[2]))
+    if k == 'fn':
+        return 'fn:' + v[1]
+    if k == 'assoc':
+        return 'assoc:' + v[1]
+    return '?'
+
+
 class Interp:
-    def __init__(self, prog, max_steps=20000, max_depth=6):
+    def __init__(self, prog, hook=None, max_steps=200000, max_depth=6, loop_bound=2, opaque=None):
+        """hook(interp, fn, term, args) -> None | value | Fork([...]); opaque: predicate on callee Fn -> do not descend"""
         self.prog = prog
+        self.hook = hook
+        self.opaque = opaque
         self.max_steps = max_steps
         self.max_depth = max_depth
+        self.loop_bound = loop_bound
         self.steps = 0
 
     # -- values of places / operands
     def place_val(self, env, pl):
         v = env.get(pl['l'], UNK)
-        for p in pl['p']:
+        return self.project(v, pl['p'])
+
+    def project(self, v, projs):
+        for p in projs:
             if p == 'deref':
                 continue
             if isinstance(p, dict) and 'dc' in p:
+                if v[0] in ('sym', 'app', 'proj'):
+                    v = ('proj', v[1], v[2] + ('as ' + str(p.get('name') or p['dc']),)) if v[0] == 'proj' else ('proj', v, ('as ' + str(p.get('name') or p['dc']),))
                 continue
             if isinstance(p, dict) and 'f' in p:
                 if v[0] == 'adt' and p['f'] < len(v[4]):
                     v = v[4][p['f']]
                 elif v[0] == 'tuple' and p['f'] < len(v[1]):
                     v = v[1][p['f']]
+                elif v[0] in ('sym', 'app'):
+                    v = ('proj', v, (p.get('name') or p['f'],))
+                elif v[0] == 'proj':
+                    v = ('proj', v[1], v[2] + (p.get('name') or p['f'],))
                 else:
                     v = UNK
+                continue
+            if isinstance(p, dict) and 'cidx' in p:
+                if v[0] == 'tuple' and not p['from_end'] and p['cidx'] < len(v[1]):
+                    v = v[1][p['cidx']]
+                elif v[0] in ('sym', 'app'):
+                    v = ('proj', v, ('[%d]' % p['cidx'],))
+                else:
+                    v = UNK
+                continue
+            if isinstance(p, dict) and 'index' in p:
+                v = ('proj', v, ('[_]',)) if v[0] in ('sym', 'app') else UNK
                 continue
             v = UNK
         return v
@@ -106,14 +202,16 @@ class Interp:
                 return ADT(rv['adt'], rv['variant'], rv['vname'], ops)
             if rv['agg'] in ('tuple', 'array'):
                 return ('tuple', tuple(ops))
+            if rv['agg'] == 'closure':
+                return ('closure', rv['def'], tuple(ops))
             return UNK
         if k == 'binop':
             a = self.op_val(fn, env, rv['a'])
             b = self.op_val(fn, env, rv['b'])
+            op = rv['op']
             if is_const(a) and is_const(b):
                 x, y = a[1], b[1]
                 try:
-                    op = rv['op']
                     if op == 'Eq':
                         return C(x == y)
                     if op == 'Ne':
@@ -132,155 +230,220 @@ class Interp:
                         return C(x or y)
                 except TypeError:
                     return UNK
-            return UNK
+            return ('app', 'binop:' + op, (a, b))
         if k == 'unop':
             a = self.op_val(fn, env, rv['a'])
             if rv['op'] == 'Not' and is_const(a) and isinstance(a[1], bool):
                 return C(not a[1])
-            return UNK
+            return ('app', 'unop:' + rv['op'], (a,))
         if k == 'cast':
             return self.op_val(fn, env, rv['op'])
         return UNK
 
-    # -- calls
-    def call(self, fn, env, t, depth, effects):
+    # -- calls: returns a value or Fork, or a list of (value, effects) paths from a local callee
+    def call(self, fn, env, t, depth):
         c = t['callee']
         args = [self.op_val(fn, env, a) for a in t['args']]
         name = c['name']
         d = c['def']
         r = callee_resolved(t)
-        effects.append((d, r, tuple(args), t['span']))
+        if self.hook is not None:
+            h = self.hook(self, fn, t, args)
+            if h is not None:
+                return h, args
+        tr = c.get('trait') or ''
         # structural equality
-        if c.get('trait') and path_endswith(c['trait'], 'cmp::PartialEq') and name in ('eq', 'ne') and len(args) == 2:
+        if path_endswith(tr, 'cmp::PartialEq') and name in ('eq', 'ne') and len(args) == 2:
             a, b = args
-            if self._fully_known(a) and self._fully_known(b):
-                return C((a == b) if name == 'eq' else (a != b))
-            # differing variants decide inequality even with unknown payloads
+            if fully_known(a) and fully_known(b):
+                return C((a == b) if name == 'eq' else (a != b)), args
             if a[0] == 'adt' and b[0] == 'adt' and a[1] == b[1] and a[2] != b[2]:
-                return C(name == 'ne')
-            return UNK
+                return C(name == 'ne'), args
+            if a == b and a[0] in ('sym',):
+                return C(name == 'eq'), args
+            return ('app', d, tuple(args)), args
+        if path_endswith(tr, 'ops::Try') and name == 'branch' and len(args) == 1:
+            a = args[0]
+            if is_adt(a, 'result::Result'):
+                if a[3] == 'Ok':
+                    return ADT('std::ops::ControlFlow', 0, 'Continue', [a[4][0]]), args
+                return ADT('std::ops::ControlFlow', 1, 'Break', [ERR(a[4][0])]), args
+            if is_adt(a, 'option::Option'):
+                if a[3] == 'Some':
+                    return ADT('std::ops::ControlFlow', 0, 'Continue', [a[4][0]]), args
+                return ADT('std::ops::ControlFlow', 1, 'Break', [NONE]), args
+            # opaque Result: case split, remembering where the payloads came from
+            return Fork([ADT('std::ops::ControlFlow', 0, 'Continue', [('proj', a, ('ok',))]),
+                         ADT('std::ops::ControlFlow', 1, 'Break', [ERR(('proj', a, ('err',)))])]), args
+        if path_endswith(tr, 'ops::FromResidual') and name == 'from_residual' and len(args) == 1:
+            return args[0], args
+        if (path_endswith(tr, 'convert::Into') and name == 'into' or path_endswith(tr, 'convert::From') and name == 'from') and len(args) == 1:
+            ga = c.get('args') or []
+            if len(ga) >= 2 and ga[0] == ga[1]:
+                return args[0], args
+        # value-preserving std conversions are transparent (refs are transparent in this domain)
+        if len(args) == 1 and not c.get('local'):
+            if (path_endswith(tr, 'clone::Clone') and name == 'clone' and not (r and self.prog.by_path.get(r))) or \
+               (path_endswith(tr, 'string::ToString') and name == 'to_string' and args[0][0] in ('sym', 'c')) or \
+               (path_endswith(tr, 'borrow::ToOwned') and name == 'to_owned') or \
+               (path_endswith(tr, 'ops::Deref') and name == 'deref') or (path_endswith(tr, 'ops::DerefMut') and name == 'deref_mut') or \
+               (path_endswith(tr, 'convert::AsRef') and name == 'as_ref') or (path_endswith(tr, 'borrow::Borrow') and name == 'borrow'):
+                return args[0], args
         target = None
         if r is not None:
             target = self.prog.by_path.get(r)
         if target is None and c.get('local'):
             target = self.prog.by_path.get(d)
-        if target is not None and depth < self.max_depth and target.kind != 'Closure':
-            val, eff = self.eval_fn(target, args, depth + 1)
-            effects.extend(eff)
-            return val
-        # transparent std helpers
-        if name in ('into', 'from', 'clone', 'borrow', 'as_ref', 'deref', 'to_owned', 'to_string') and len(args) == 1:
-            return args[0]
-        return UNK
+        if target is not None and depth < self.max_depth and target.kind != 'Closure' and not (self.opaque and self.opaque(target)):
+            return ('paths', self.paths(target, args, depth + 1)), args
+        return ('app', r or d, tuple(args)), args
 
-    def _fully_known(self, v):
-        if v[0] == 'c':
-            return True
-        if v[0] == 'adt':
-            return all(self._fully_known(x) for x in v[4])
-        if v[0] == 'tuple':
-            return all(self._fully_known(x) for x in v[1])
-        return False
-
-    # -- function evaluation
-    def eval_fn(self, fn, args, depth=0):
-        """returns (value of _0 joined over all explored paths, effects list (first explored path order, joined paths concatenated))"""
+    # -- function evaluation: all paths
+    def paths(self, fn, args, depth=0):
+        """list of (return value, effects tuple) over all explored paths; effects = ((callee def, resolved, args, span), ...)"""
         env = {}
         for i, a in enumerate(args):
             env[i + 1] = a
-        results = []
-        effects = []
-        self._run(fn, 0, env, depth, results, effects, set())
-        if not results:
-            return UNK, effects
-        v = results[0]
-        for r in results[1:]:
-            v = join(v, r)
-        return v, effects
+        out = []
+        self._run(fn, 0, env, depth, out, (), {})
+        return out
 
-    def _run(self, fn, b, env, depth, results, effects, onpath):
+    def eval_fn(self, fn, args, depth=0):
+        """joined value + concatenated effects (for tabulation of total functions)"""
+        ps = self.paths(fn, args, depth)
+        rets = [p for p in ps if p[0] != ('diverge',)]
+        if not rets:
+            return UNK, [e for p in ps for e in p[1]]
+        v = rets[0][0]
+        for r in rets[1:]:
+            v = join(v, r[0])
+        return v, [e for p in ps for e in p[1]]
+
+    def _run(self, fn, b, env, depth, out, effects, edges):
         while True:
             self.steps += 1
             if self.steps > self.max_steps:
                 raise Budget()
-            if (b, ) in onpath and len(onpath) > 400:
-                results.append(UNK)
-                return
             blk = fn.blocks[b]
             for st in blk['stmts']:
                 if st['k'] == 'assign':
                     v = self.rvalue(fn, env, st['rv'])
                     if not st['pl']['p']:
                         env[st['pl']['l']] = v
+                    elif st['pl']['p'] == ['deref'] or all(p == 'deref' for p in st['pl']['p']):
+                        # store through a reference: refs are transparent, so this overwrites the referent's value
+                        effects = effects + (('<store>', None, (env.get(st['pl']['l'], UNK), v), st.get('span')),)
+                        env[st['pl']['l']] = v
                     else:
+                        effects = effects + (('<store-field>', None, (env.get(st['pl']['l'], UNK), v), st.get('span')),)
                         env[st['pl']['l']] = UNK
             t = blk['term']
             k = t['k']
             if k == 'return':
-                results.append(env.get(0, UNK))
+                out.append((env.get(0, UNK), effects))
                 return
             if k == 'goto':
-                b = t['target']
-                continue
-            if k == 'call':
-                v = self.call(fn, env, t, depth, effects)
+                nb = t['target']
+            elif k == 'call':
+                res, args = self.call(fn, env, t, depth)
+                c = t['callee']
+                eff = (c['def'], callee_resolved(t), tuple(args), t['span'])
                 if t.get('target') is None:
-                    results.append(('diverge',))
+                    out.append((('diverge',), effects + (eff,)))
+                    return
+                if isinstance(res, tuple) and res and res[0] == 'paths':
+                    sub = res[1]
+                    live = [p for p in sub if p[0] != ('diverge',)]
+                    for p in sub:
+                        if p[0] == ('diverge',):
+                            out.append((('diverge',), effects + (eff,) + p[1]))
+                    if not live:
+                        return
+                    if len(live) == 1:
+                        effects = effects + (eff,) + live[0][1]
+                        if not t['dest']['p']:
+                            env[t['dest']['l']] = live[0][0]
+                        nb = t['target']
+                    else:
+                        for val, e2 in live:
+                            env2 = dict(env)
+                            if not t['dest']['p']:
+                                env2[t['dest']['l']] = val
+                            self._run(fn, t['target'], env2, depth, out, effects + (eff,) + e2, dict(edges))
+                        return
+                elif isinstance(res, Fork):
+                    for val in res.values:
+                        env2 = dict(env)
+                        if not t['dest']['p']:
+                            env2[t['dest']['l']] = val
+                        self._run(fn, t['target'], env2, depth, out, effects + (eff,), dict(edges))
+                    return
+                else:
+                    effects = effects + (eff,)
+                    if not t['dest']['p']:
+                        env[t['dest']['l']] = res
+                    nb = t['target']
+            elif k == 'call_indirect':
+                args = tuple(self.op_val(fn, env, a) for a in t['args'])
+                fv = self.op_val(fn, env, t['fn_operand'])
+                effects = effects + (('<indirect>', None, (fv,) + args, t['span']),)
+                if t.get('target') is None:
+                    out.append((('diverge',), effects))
                     return
                 if not t['dest']['p']:
-                    env[t['dest']['l']] = v
-                b = t['target']
-                continue
-            if k == 'call_indirect':
-                effects.append(('<indirect>', None, tuple(self.op_val(fn, env, a) for a in t['args']), t['span']))
-                if t.get('target') is None:
-                    return
-                env[t['dest']['l']] = UNK
-                b = t['target']
-                continue
-            if k in ('drop', 'assert'):
-                b = t['target']
-                continue
-            if k == 'switch':
+                    env[t['dest']['l']] = ('app', '<indirect>', (fv,) + args)
+                nb = t['target']
+            elif k in ('drop', 'assert'):
+                nb = t['target']
+            elif k == 'switch':
                 v = self.op_val(fn, env, t['discr'])
-                if is_const(v):
+                if is_const(v) and not isinstance(v[1], tuple):
                     x = v[1]
                     if isinstance(x, bool):
                         x = 1 if x else 0
                     if isinstance(x, str) and len(x) == 1:
                         x = ord(x)
-                    tgt = t['otherwise']
+                    nb = t['otherwise']
                     for val, tg in t['targets']:
                         if val == x:
-                            tgt = tg
-                    b = tgt
-                    continue
-                # unknown: explore all distinct successors
-                seen = []
-                for _, tg in t['targets'] + [[None, t['otherwise']]]:
-                    if tg in seen:
-                        continue
-                    seen.append(tg)
-                    key = (b, tg)
-                    if key in onpath:
-                        results.append(UNK)
-                        continue
-                    self._run(fn, tg, dict(env), depth, results, effects, onpath | {key})
+                            nb = tg
+                else:
+                    seen = []
+                    for val, tg in t['targets'] + [[None, t['otherwise']]]:
+                        if tg in seen:
+                            continue
+                        seen.append(tg)
+                        key = (b, tg)
+                        if edges.get(key, 0) >= self.loop_bound:
+                            continue
+                        e2 = dict(edges)
+                        e2[key] = e2.get(key, 0) + 1
+                        eff2 = effects + (('<branch>', None, (v, C(val) if val is not None else SYM('otherwise')), t['span']),)
+                        self._run(fn, tg, dict(env), depth, out, eff2, e2)
+                    return
+            elif k == 'unreachable':
                 return
-            if k == 'unreachable':
+            else:
+                out.append((UNK, effects))
                 return
-            results.append(UNK)
-            return
+            key = (b, nb)
+            if nb <= b:
+                # back edge: bound iterations
+                if edges.get(key, 0) >= self.loop_bound:
+                    return
+                edges = dict(edges)
+                edges[key] = edges.get(key, 0) + 1
+            b = nb
 
 
-def tabulate(prog, fn, adt_path, make_arg=None):
-    """Evaluate `fn(self = each variant of adt_path)`; payload fields unknown.
+def tabulate(prog, fn, adt_path, make_arg=None, hook=None):
+    """Evaluate `fn(self = each variant of adt_path)`; payload fields are symbolic.
     returns {variant_idx: (value, effects)}"""
     a = prog.adt(adt_path)
     out = {}
     for v in a['variants']:
-        arg = ADT(a['path'], v['idx'], v['name'], [UNK for _ in v['fields']])
-        it = Interp(prog)
+        arg = ADT(a['path'], v['idx'], v['name'], [SYM('%s.%s' % (v['name'], f['name'])) for f in v['fields']])
+        it = Interp(prog, hook=hook)
         args = [arg] if make_arg is None else make_arg(arg)
         try:
             out[v['idx']] = it.eval_fn(fn, args)
